@@ -531,9 +531,15 @@ def _string_worker(_):
                 # valid UTF-8, NUL) before, inside and after it - must never decode to the member: rejected, or (in
                 # list containers) preserved verbatim
                 members_by_code = {x.value.code: x for x in c.get_enum_class()}
-                for pos in sorted({0, len(code) // 2, len(code)}):
-                    for stray in (b'x', b'\xff', b'\x80', b'\xc3', b'\x00', b' '):
-                        name = code[:pos] + stray + code[pos:]
+                strays = [code[:pos] + stray + code[pos:] for pos in sorted({0, len(code) // 2, len(code)})
+                          for stray in (b'x', b'\xff', b'\x80', b'\xc3', b'\x00', b' ')]
+                # ... and the member's name in another letter case: opaque names are compared octet by octet
+                # (RFC 7301 s6: "opaque, non-empty byte strings")
+                strays += [f(code) for f in (bytes.upper, bytes.lower, bytes.swapcase, bytes.title,
+                                             lambda x: x[:1].swapcase() + x[1:], lambda x: x[:-1] + x[-1:].swapcase())
+                           if f(code) != code]
+                for name in strays:
+                    if True:
                         if len(name) > 255:
                             continue
                         try:
@@ -561,6 +567,11 @@ def _string_worker(_):
         first = members[0].value.code
         names = [(m.value.code, m) for m in members]
         names += [('unknown-name@verif', None), (first + 'x', None), (first[:-1], None), (first.upper(), None)]
+        known = {m.value.code for m in members}
+        for m in members:      # algorithm names are case-sensitive (RFC 4251 s6): another case is another, unknown name
+            for f in (str.upper, str.swapcase, str.title):
+                if f(m.value.code) not in known and (f(m.value.code), None) not in names:
+                    names.append((f(m.value.code), None))
         for name, m in names:
             for lst in ([name], [name, first], [first, name]):
                 body = ','.join(lst).encode('ascii')
